@@ -45,6 +45,72 @@ pub fn gen_case(t: &mut Tape, cfg: GenCfg) -> Case {
     }
 }
 
+/// Set-operation shapes over relations whose columns the compiler does not know (`from t` used
+/// directly): de-duplication of the whole row (`group this (take 1)`) before / after an `append`,
+/// on the top, on the bottom, with filters and takes around. The documented meaning: `append` keeps
+/// every row of both inputs; only the idiom itself removes duplicates, and only of its own input.
+pub fn gen_setop_case(t: &mut Tape) -> Case {
+    use crate::model::ast::{ColRef, Expr, Pipeline, Source, SrcKind, Step};
+    let target = if t.chance(1, 2) { "generic" } else { "sqlite" }.to_string();
+    let mut g = Gen::new(t, GenCfg::general());
+    g.gen_db();
+    let db = g.db.clone();
+    let t = g.t;
+    let ti = t.choose(db.tables.len());
+    let top = db.tables[ti].clone();
+    let this_keys = |cols: &[crate::model::ast::Column]| -> Vec<ColRef> {
+        cols.iter().enumerate().map(|(i, c)| ColRef { idx: i, text: if i == 0 { "this".to_string() } else { c.name.clone() } }).collect()
+    };
+    let distinct = |cols: &[crate::model::ast::Column]| Step::Group { keys: this_keys(cols), inner: vec![Step::Take { lo: None, hi: Some(1), single: true }] };
+    // a filter on the key column of the top table (bare name: unique in its frame)
+    let filt = |t: &mut Tape, cols: &[crate::model::ast::Column]| -> Step {
+        let v = t.range(0, 3);
+        Step::Filter(Expr::bin(crate::model::ast::BinOp::Gte, Expr::Col(ColRef { idx: 0, text: cols[0].name.clone() }), Expr::Lit(crate::model::val::Val::Int(v))))
+    };
+    let mut steps = vec![];
+    if t.chance(1, 3) {
+        steps.push(filt(t, &top.cols));
+    }
+    let pre_distinct = t.chance(2, 3);
+    if pre_distinct {
+        steps.push(distinct(&top.cols));
+    }
+    // bottom: the same table again, another table projected onto the top's column types, ...
+    let nappend = 1 + t.choose(2);
+    for _ in 0..nappend {
+        // the compiler only accepts an operand of unknown columns under a top of unknown columns:
+        // a table of the same shape (or the top table itself), read directly or through filters /
+        // the de-duplication idiom, never projected
+        let shaped: Vec<usize> = (0..db.tables.len())
+            .filter(|j| db.tables[*j].cols.len() == top.cols.len() && db.tables[*j].cols.iter().zip(&top.cols).all(|(a, b)| a.ty == b.ty && a.name == b.name))
+            .collect();
+        let tj = shaped[t.choose(shaped.len())];
+        let bt = db.tables[tj].clone();
+        let mut bsteps = vec![];
+        if t.chance(1, 2) {
+            bsteps.push(filt(t, &bt.cols));
+        }
+        if t.chance(1, 3) {
+            bsteps.push(distinct(&bt.cols));
+        }
+        let bottom = if bsteps.is_empty() {
+            Source { kind: SrcKind::Table(bt.name.clone()), alias: None }
+        } else {
+            Source { kind: SrcKind::Sub(Box::new(Pipeline { source: Source { kind: SrcKind::Table(bt.name.clone()), alias: None }, steps: bsteps })), alias: None }
+        };
+        steps.push(Step::Append(Box::new(bottom)));
+        if t.chance(1, 4) {
+            steps.push(distinct(&top.cols));
+        }
+    }
+    if t.chance(1, 3) {
+        steps.push(filt(t, &top.cols));
+    }
+    let names = top.cols.iter().map(|c| Some(c.name.clone())).collect();
+    let prog = Prog { funcs: vec![], lets: vec![], main: Pipeline { source: Source { kind: SrcKind::Table(top.name.clone()), alias: None }, steps }, surface: Default::default() };
+    Case { db, prog, target, flags: vec!["setop_wild".into()], names }
+}
+
 pub struct Judged {
     pub src: String,
     pub sql: Option<String>,
@@ -319,6 +385,7 @@ pub fn run(ctx: &Ctx) -> i32 {
         |t| gen_case(t, cfg2.clone()),
         |c| check(c, &ctx.known),
     );
+    ctx.tape_search("setops-over-unknown-columns", ctx.n(3_000, 100_000), 120, gen_setop_case, |c| check(c, &ctx.known));
     let all_h: Vec<&'static str> = HAZARD_FINDINGS.iter().map(|(h, _)| *h).collect();
     hazard_sweeps(ctx, GenCfg::general(), &all_h, 600, 20_000);
     // sorted let-tables with several readers (the generator builds them under this hazard): a
